@@ -211,6 +211,16 @@ func orderSweep(c *driver.Ctx, d *DAG, kind string) {
 					parentFirst = true
 				}
 			}
+			// the question is also asked between the pushes (an answer given earlier must not stick)
+			if got, want := observe(st, d), expect(d, present); got != want {
+				var names []string
+				for _, id := range order {
+					names = append(names, d.Nodes[id].Name)
+				}
+				c.AddViolation(driver.Violation{Tier: c.Tier, Job: c.Job, Scenario: d.Name, Sig: kind + ": Predecessors differs from the inverse edge list after pushes",
+					Detail: fmt.Sprintf("%s\npush order %v, asked after the push of %s (and after every earlier one)\n--- store\n%s--- expected\n%s", d, names, n.Name, got, want)})
+				return
+			}
 		}
 		c.Evals++
 		c.States++
